@@ -50,11 +50,11 @@ Bounds
 ------
 quick   : one image, file sets of 1..5 names containing index.wtml: all permutations x a failure
           at each transfer x 3 phases x 2 kinds + the fault-free run of each permutation; sets
-          of 1..3 names without index.wtml likewise; 500 seeded random cases with 6..7 files;
-          200 seeded cases with 2..3 approved images (random image order, per-image orders, fault
+          of 1..3 names without index.wtml likewise; 1000 seeded random cases with 6..7 files;
+          500 seeded cases with 2..3 approved images (random image order, per-image orders, fault
           anywhere).
-thorough: the same exhaustively up to 6 names (720 orders), 3000 random cases with 7..9 files,
-          1500 multi-image cases.
+thorough: the same exhaustively up to 6 names (720 orders), 10000 random cases with 7..9 files,
+          6000 multi-image cases.
 File sizes 0, 1, 17, 300 and 5000 bytes occur; names sort before and after ``index.wtml``.
 Trusted: the local file system; ``os.rename`` atomicity.
 Not covered: the Azure store; sub-directories inside an approved image (publish opens every
@@ -289,29 +289,75 @@ def _check_put_sequence(puts, images, fails, obligation_ctx, complete):
                           "a normally ended publish transferred %r of %s, the image has %r" % (seq, img["id"], sorted(names))))
 
 
+ALL_IDS = ["img_a", "img_b", "img_c"]
+
+
+def _prepare(base, wd, store, images):
+    """Bring the work directory below ``base`` into the scenario's initial state.  Directories of
+    the previous scenario of this worker are recycled (the file system's directory operations are
+    the bottleneck): an image directory left under published/ or approved/ is moved back to
+    approved/ and its files are re-synchronised *by content*; the store and candidates/ are emptied."""
+    import yaml
+    app = os.path.join(wd, "approved")
+    pub = os.path.join(wd, "published")
+    if not os.path.exists(os.path.join(wd, "toasty-pipeline-config.yaml")):
+        if os.path.exists(base):
+            shutil.rmtree(base, ignore_errors=True)
+        os.makedirs(app)
+        os.makedirs(store)
+        with open(os.path.join(wd, "toasty-store-config.yaml"), "w") as f:
+            yaml.safe_dump({"_type": "c18-faulty", "path": store}, f)
+        with open(os.path.join(wd, "toasty-pipeline-config.yaml"), "w") as f:
+            yaml.safe_dump({"source_type": "c18-stub", "c18_stub": {"ids": ALL_IDS + ["never_seen"]}}, f)
+    want = dict((im["id"], im) for im in images)
+    for iid in set(ALL_IDS) | set(want):
+        a, p_ = os.path.join(app, iid), os.path.join(pub, iid)
+        if os.path.isdir(p_):
+            if os.path.isdir(a):
+                shutil.rmtree(p_, ignore_errors=True)
+            else:
+                os.rename(p_, a)
+        im = want.get(iid)
+        if im is None:
+            if os.path.isdir(a):
+                shutil.rmtree(a, ignore_errors=True)
+        else:
+            if not os.path.isdir(a):
+                os.makedirs(a)
+            names = dict((n, sz) for n, sz in im["files"])
+            for fn in _real_listdir(a):
+                if fn not in names:
+                    q = os.path.join(a, fn)
+                    shutil.rmtree(q) if os.path.isdir(q) else os.unlink(q)
+            for n, sz in im["files"]:
+                q = os.path.join(a, n)
+                c = _content(iid, n, sz)
+                if not (os.path.isfile(q) and _read(q) == c):
+                    with open(q, "wb") as f:
+                        f.write(c)
+        sdir = os.path.join(store, iid)
+        if os.path.isdir(sdir):
+            shutil.rmtree(sdir, ignore_errors=True)
+    for extra in _real_listdir(store):
+        if extra not in ALL_IDS:
+            q = os.path.join(store, extra)
+            shutil.rmtree(q) if os.path.isdir(q) else os.unlink(q)
+    cand = os.path.join(wd, "candidates")
+    if os.path.isdir(cand):
+        for fn in _real_listdir(cand):
+            os.unlink(os.path.join(cand, fn))
+
+
 def run_scenario(base, sc):
-    """Run one scenario in a fresh directory below ``base``. Returns
+    """Run one scenario in the (recycled, see _prepare) work directory below ``base``. Returns
     {'fails': [(obligation, witness_extra, message)], 'fired': bool, 'puts': n, 'listdir_hits': n, 'notes': []}"""
     _install()
     import yaml
     wd = os.path.join(base, "wd")
     store = os.path.join(base, "store")
-    if os.path.exists(base):
-        shutil.rmtree(base, ignore_errors=True)
-    os.makedirs(wd)
-    os.makedirs(store)
     images = sc["images"]
-    with open(os.path.join(wd, "toasty-store-config.yaml"), "w") as f:
-        yaml.safe_dump({"_type": "c18-faulty", "path": store}, f)
-    with open(os.path.join(wd, "toasty-pipeline-config.yaml"), "w") as f:
-        yaml.safe_dump({"source_type": "c18-stub", "c18_stub": {"ids": [im["id"] for im in images] + ["never_seen"]}}, f)
     app = os.path.join(wd, "approved")
-    for im in images:
-        d = os.path.join(app, im["id"])
-        os.makedirs(d)
-        for name, size in im["files"]:
-            with open(os.path.join(d, name), "wb") as f:
-                f.write(_content(im["id"], name, size))
+    _prepare(base, wd, store, images)
     orders = {os.path.normpath(app): list(sc["image_order"])}
     for im in images:
         orders[os.path.normpath(os.path.join(app, im["id"]))] = list(im["order"])
@@ -418,7 +464,6 @@ def run_scenario(base, sc):
                                       im["id"], st, in_app, _dir_complete(pub, im))))
     res = {"fails": fails, "fired": fired, "puts": len(puts1), "listdir_hits": _PLAN["listdir_hits"], "notes": notes}
     _PLAN["orders"] = {}
-    shutil.rmtree(base, ignore_errors=True)
     return res
 
 
@@ -515,8 +560,8 @@ def run(ctx):
     for n in range(1, 4):
         scs += single_image_scenarios(NAMES[1:n + 1])
     n_ex2 = len(scs) - n_ex
-    n_rand = 3000 if thorough else 500
-    n_multi = 1500 if thorough else 200
+    n_rand = 10000 if thorough else 1000
+    n_multi = 6000 if thorough else 500
     scs += [random_single(rng, nmax + 1, 9 if thorough else 7) for _ in range(n_rand)]
     scs += [random_multi(rng) for _ in range(n_multi)]
     ctx.bound("one image, file sets {index.wtml + first n-1 of %r}, n = 1..%d: ALL listing orders x (fault-free run + failure at each "
